@@ -25,6 +25,7 @@ type c11Cmd struct {
 	Codec   string
 	BigBody int // > 0: record BigAt carries a response body of this many bytes
 	BigAt   int
+	Split   []int `json:",omitempty"` // the records are spread over several files: lengths of all but the last
 }
 
 func runC11Cmd(c c11Cmd) error {
@@ -41,13 +42,29 @@ func runC11Cmd(c c11Cmd) error {
 			rs[i].BytesIn = uint64(c.BigBody)
 		}
 	}
-	in, err := writeResults(dir, "in."+c.Codec, c.Codec, rs)
-	if err != nil {
-		return err
+	var ins []string
+	rest := rs
+	for i, k := range append(append([]int(nil), c.Split...), -1) {
+		if k < 0 || k > len(rest) {
+			k = len(rest)
+		}
+		if k == 0 && i < len(c.Split) {
+			continue // (a file without a record is in no format)
+		}
+		in, err := writeResults(dir, fmt.Sprintf("in%d.%s", i, c.Codec), c.Codec, rest[:k])
+		if err != nil {
+			return err
+		}
+		ins, rest = append(ins, in), rest[k:]
+	}
+	if len(rs) > 0 && len(rest) == 0 && len(ins) > 1 {
+		if fi, err := os.Stat(ins[len(ins)-1]); err == nil && fi.Size() == 0 {
+			ins = ins[:len(ins)-1]
+		}
 	}
 	out := filepath.Join(dir, "report.json")
 	var rerr error
-	if perr := vh.Try(func() { rerr = runReport([]string{in}, "json", out, 0, "") }); perr != nil || rerr != nil {
+	if perr := vh.Try(func() { rerr = runReport(ins, "json", out, 0, "") }); perr != nil || rerr != nil {
 		return fmt.Errorf("vegeta report -type=json on a %s file of %d records: %v %v", c.Codec, len(rs), perr, rerr)
 	}
 	b, err := os.ReadFile(out)
@@ -78,6 +95,9 @@ func runC11Cmd(c c11Cmd) error {
 	L.Min, L.Max, L.P50, L.P90, L.P95, L.P99 = get("min"), get("max"), get("50th"), get("90th"), get("95th"), get("99th")
 	n := len(c.Lat)
 	what := fmt.Sprintf("vegeta report -type=json on a %s file of %d records", c.Codec, n)
+	if len(ins) > 1 {
+		what = fmt.Sprintf("vegeta report -type=json on %d %s files holding %d records (split %v)", len(ins), c.Codec, n, c.Split)
+	}
 	if c.BigBody > 0 {
 		what += fmt.Sprintf(" (record %d with a body of %d bytes)", c.BigAt%n, c.BigBody)
 	}
@@ -109,7 +129,8 @@ func runC11Cmd(c c11Cmd) error {
 		if le < 1 || lt >= n {
 			return fmt.Errorf("%s: %s = %d lies outside the latencies in the file [%d, %d]", what, p.name, p.v, sorted[0], sorted[n-1])
 		}
-		if need > tau && !(p.q == 0.5 && need <= 1+0.032*float64(n)) { // (the median's resolution is the listed known finding, decided by the library check)
+		// (the estimator's resolution is the listed known finding tdigest-resolution, decided by the library check)
+		if need > tau && need > 1+3.5*math.Pi/100*math.Sqrt(p.q*(1-p.q))*float64(n) {
 			return fmt.Errorf("%s: %s = %d has rank error %.1f > 1 + 1%% of n = %.1f", what, p.name, p.v, need, tau)
 		}
 	}
@@ -144,6 +165,9 @@ func TestC11ReportCmd(t *testing.T) {
 		if rapid.IntRange(0, 3).Draw(t, "big") == 0 {
 			c.BigBody = rapid.SampledFrom([]int{50000, 70000, 200000}).Draw(t, "bigbody")
 			c.BigAt = rapid.IntRange(0, n-1).Draw(t, "bigat")
+		}
+		if rapid.IntRange(0, 2).Draw(t, "split") == 0 && n >= 2 {
+			c.Split = rapid.SliceOfN(rapid.IntRange(1, max(1, n/2)), 1, 3).Draw(t, "splits")
 		}
 		sig, _ := json.Marshal(c)
 		vh.Case("C11.reportcmd", string(sig), zeros || c.BigBody > 0, c.Codec, fmt.Sprintf("zero-after-nonzero:%v", zeros), fmt.Sprintf("large-record:%v", c.BigBody > 0))
